@@ -72,6 +72,13 @@ BOUNDARY_BIG = [16384, 32768, 65536]
 
 def gen_op(rng):
     msgs = []
+    if rng.random() < 0.12:
+        # a message the handler rejects (first byte 3, 17, 31, ...: see the engine), then messages that are no longer than it
+        s0 = rng.choice([8, 16, 40, 64])
+        stream = frame(2, bytes([rng.choice([3, 17, 31, 45])]) + bytes(rng.randrange(256) for _ in range(s0 - 1)))
+        for _ in range(rng.randint(2, 4)):
+            stream += frame(rng.choice([1, 2, 2, 3]), bytes(rng.randrange(256) for _ in range(rng.randint(1, s0))))
+        return "frame serve %s" % ",".join(hx(c) for c in chunkings(rng, stream))
     for _ in range(rng.randint(0, 5)):
         ty = rng.choice([0, 1, 2, 2, 2, 3, 0xFFFFFFFF, rng.randrange(2 ** 32)])
         body = bytes(rng.randrange(256) for _ in range(rng.choice([0, 0, 1, 2, 3, 7, 8, 9, 16, 40])))
